@@ -1,9 +1,11 @@
-(* C18 - the decompiler's dominator tree is the true dominator tree.  Statements only; proofs in Dad/DomProofs.v.
-   PARTIAL: the theorems are about the executable specification spec_idom (what immediate_dominators is specified to
-   return).  That the Lengauer-Tarjan code returns this function is not a theorem: it is decided graph by graph by the
-   correspondence check, which evaluates spec_idom inside Coq on each tested graph and compares with the real output. *)
+(* C18 - the decompiler's dominator tree is the true dominator tree.  Statements only; proofs in Dad/DomProofs.v, Dad/LtSmall.v.
+   PARTIAL: the unbounded theorems are about the executable specification spec_idom (what immediate_dominators is specified to
+   return).  The Lengauer-Tarjan code is modelled (Dad/LtModel.v) and the model is proved to return the specified table on
+   every graph of up to four nodes; beyond that, that dom_lt returns this function is decided graph by graph by the
+   correspondence check, which evaluates spec_idom and the model of dom_lt inside Coq on each tested graph and compares both
+   with the real output. *)
 From Coq Require Import ZArith List Bool.
-Require Import V.Lib.Val V.Lib.Result V.Dad.DomModel V.Dad.DomProofs.
+Require Import V.Lib.Val V.Lib.Result V.Dad.DomModel V.Dad.DomProofs V.Dad.LtModel V.Dad.LtSmall.
 Import ListNotations.
 Open Scope Z_scope.
 
@@ -32,3 +34,24 @@ Print Assumptions C18_specified_table_meets_the_definition_partial.
 Example C18_nonvacuous :
   spec_idom [[1; 2]; [2; 1]; [1; 3]; [3]; [0]] 0 = Some [(0, None); (1, Some 0); (2, Some 0); (3, Some 2)].
 Proof. vm_compute. reflexivity. Qed.
+
+(* ---- the algorithm itself ---- *)
+(* dom_lt as the code runs it (depth-first numbering with predecessor sets, path compression, semidominators with buckets, the
+   final pass), on EVERY graph of one to four nodes - successor lists in increasing order without repetition, every node as the
+   entry, loops, irreducible regions and unreachable nodes included (a finite domain, swept by the kernel): the model ends and
+   its table gives every reachable node the node the definition of the immediate dominator singles out, the entry none, and
+   has no row for an unreachable node.  For larger graphs this is not a theorem (see the header). *)
+Theorem C18_dom_lt_meets_the_definition_up_to_four_nodes : forall n g entry,
+  (1 <= n <= 4)%nat -> length g = n -> Forall (fun l => subseq l (range n) = true) g -> In entry (range n) ->
+  exists m, lt_row g entry = Some (map (row_of m) (map Z.of_nat (seq 0 (length g)))) /\
+    (forall v, (exists i, In (v, i) m) <-> reachable g entry v) /\
+    (forall v, In (v, None) m -> v = entry) /\
+    (forall v d, In (v, Some d) m -> v <> entry /\ is_idom g entry d v).
+Proof. exact lt_small_meets_the_definition. Qed.
+Print Assumptions C18_dom_lt_meets_the_definition_up_to_four_nodes.
+(* how a row reads: -2 no entry in the table, -1 the entry, else the dominator *)
+Theorem C18_rows_read_the_table : forall m v,
+  (row_of m v = -2 /\ forall i, ~ In (v, i) m) \/ (row_of m v = -1 /\ In (v, None) m) \/ In (v, Some (row_of m v)) m.
+Proof. exact row_of_meaning. Qed.
+Example C18_dom_lt_nonvacuous : obs_lt ([[1; 2]; [2; 1]; [1; 3]; [3]; [0]], 0) = vlistZ [-1; 0; 0; 2; -2].
+Proof. exact lt_example. Qed.
